@@ -855,8 +855,12 @@ class Verifier:
         enc = self.c.ghost.get("encode_event") or self.default_policies.get("encode_event")
         return enc(I, v) if enc else v
 
-    def on_yield(self, I, v, node):
+    def on_yield(self, I, v, node, env=None):
         from .core import list_append
+
+        yc = self.c.ghost.get("yield_check")
+        if yc is not None and I.frame.qual == self.c.target:
+            yc(I, v, node, env)
 
         yh = self.c.ghost.get("yield_hook")
         if yh is not None and I.frame.qual == self.c.target:
@@ -872,6 +876,12 @@ class Verifier:
         g = I.eval(n.value, env)
         if isinstance(g, Iter):
             g = g.srcs[0]
+        if isinstance(g, Opaque):
+            # an unknown generator: it may yield any events and return anything
+            tty = self.trace_ty(self.contract_of_frame(I.frame.qual) or self.c)
+            if tty is None:
+                raise Unsupported("yield from an unknown generator without trace type")
+            g = Obj("generator", {"trace": fresh_value(I.ctx, ListT(tty), "unknown_generator_trace"), "value": Opaque("generator result")})
         if not (isinstance(g, Obj) and g.cls == "generator"):
             raise Unsupported(f"yield from {g!r}")
         fr = I.frame
